@@ -603,6 +603,9 @@ pub struct Outcome {
     pub fired: Fired,
     pub sim_seconds: u64,
     pub digest: u64,
+    /// digest of what the callers observed only (no reach probes, no seam counters): equal for
+    /// equal runs even if the library keeps process-wide state that survives from run to run
+    pub stable_digest: u64,
 }
 
 pub fn level_filter(level: u8) -> log::LevelFilter {
@@ -786,5 +789,10 @@ pub fn execute(sc: &Scenario) -> Outcome {
         d.text(k);
         d.word(*v);
     }
-    Outcome { obs, fired, sim_seconds, digest: d.0 }
+    let mut sd = crate::rng::Digest::new();
+    for (i, o) in &obs {
+        sd.word(*i as u64);
+        sd.text(&o.stable());
+    }
+    Outcome { obs, fired, sim_seconds, digest: d.0, stable_digest: sd.0 }
 }
